@@ -191,9 +191,29 @@ S6Set ==
                     ENone, ESome(Dec(1)), ELeft(Dec(1)), ERight(Dec(1)), ERight(Dec(300)), EUnit, EBool(TRUE), Dec(1), Dec(0), EHex(<<"0", "1", "0", "2">>),
                     EHex(<<"0", "1">>), EBin(<<"1">>), EParen(Dec(1)), ETuple(<<Dec(1)>>), EArray(<<Dec(1)>>)}}
 
-StFamilies == {[s |-> i] : i \in 1..6}
+\* S7: sizes whose balanced layout is not a plain halving (5, 6, 7, 9, 13), every builtin alias as a parameter / result type,
+\* one parameter used at two types that merely share a layout --------------------------------------------------------
+S7Set ==
+  LET m(ss) == Main(Blk(ss))
+      arr(n) == EArray([i \in 1..n |-> Dec(i)])
+      pat(n) == PArr([i \in 1..n |-> IF i = n THEN PId("last") ELSE IF i = 1 THEN PId("first") ELSE PIgn])
+      sized(n) == <<m(<<SLet(PId("a"), TArr(T8, n), arr(n)), SLet(pat(n), TArr(T8, n), V("a")),
+                         Eq8(V("last"), Dec(n)), Eq8(V("first"), Dec(1))>>)>>
+      tup(n) == <<m(<<SLet(PId("a"), TTup([i \in 1..n |-> T8]), ETuple([i \in 1..n |-> Dec(i)])),
+                       SLet(PTup([i \in 1..n |-> IF i = n THEN PId("last") ELSE PIgn]), TTup([i \in 1..n |-> T8]), V("a")),
+                       Eq8(V("last"), Dec(n))>>)>>
+      passes(n) == <<IFn("idn", <<Param("a", TArr(T8, n))>>, <<TArr(T8, n)>>, BlkE(<<>>, V("a"))),
+                     m(<<SLet(pat(n), TArr(T8, n), ECall(CFn("idn"), <<arr(n)>>)), Eq8(V("last"), Dec(n))>>)>>
+      alias(nm) == <<IFn("keep", <<Param("a", TBuiltin(nm))>>, <<TBuiltin(nm)>>, BlkE(<<>>, V("a"))), m(<<>>)>>
+      twice(t1, t2) == <<m(<<SLet(PId("x"), t1, EParam("P")), SLet(PId("y"), t2, EParam("P"))>>)>>
+  IN {sized(n) : n \in {5, 6, 7, 9, 13}} \cup {tup(n) : n \in {5, 6, 7}} \cup {passes(n) : n \in {5, 6}}
+     \cup {alias(nm) : nm \in BuiltinAliasNames}
+     \cup {twice(T16, TTup(<<T8, T8>>)), twice(TTup(<<T8, T8>>), T16), twice(TBool, TU(1)), twice(TArr(T8, 2), T16),
+           twice(T16, T16), twice(TTup(<<T8, T8>>), TTup(<<T8, T8>>))}
+
+StFamilies == {[s |-> i] : i \in 1..7}
 StProgramsOf(f) ==
-  LET S == CASE f.s = 1 -> S1Set [] f.s = 2 -> S2Set [] f.s = 3 -> S3Set [] f.s = 4 -> S4Set [] f.s = 5 -> S5Set [] f.s = 6 -> S6Set
+  LET S == CASE f.s = 1 -> S1Set [] f.s = 2 -> S2Set [] f.s = 3 -> S3Set [] f.s = 4 -> S4Set [] f.s = 5 -> S5Set [] f.s = 6 -> S6Set [] f.s = 7 -> S7Set
       \* witnesses / parameters of an accepted near miss get all-zero values (one run)
       mk(it, an) ==
         LET wn == IF IsErr(an) THEN <<>> ELSE SetToSeq(DOMAIN an.wits)
